@@ -52,9 +52,12 @@ Definition fl_close_tol (t : Q) (m : Q) (o : fl) : bool :=
   match o with Fin q => close_tol t m q | _ => false end.
 Definition list_close_tol (t : Q) (m : list Q) (o : list fl) : bool := all2 (fl_close_tol t) m o.
 
-(* forward Jacobian: 1 - cos(theta) cancels in binary64; the error of c1 * itheta is about 1e-16 / theta *)
+(* forward Jacobian: 1 - cos(theta) cancels in binary64 (cos rounds to 1 below 1.5e-8): the error of c1 * itheta is
+   min(theta, 1e-16 / theta), plus ulp(theta) for many turns.  Measured on 3000 vectors: <= 0.55 (1.4 for theta in 1..10)
+   times that bound; allowed: 15 times (safety factor 10), i.e. at most 1.5e-7 (at theta = 1e-8), 1e-12 for theta < 1e-13. *)
 Definition jac_tol (theta : Q) : Q :=
-  tol + (if Qle_bool theta (1 # 1000000000000000) then 1 else (1 # 1000000000000000) / theta).
+  let cancel := if Qle_bool theta (1 # 100000000) then theta else (1 # 10000000000000000) / theta in
+  (1 # 10000000000000) + 15 * (cancel + (1 # 10000000000000000) * Qmax' 1 theta).
 
 (* inverse Jacobian, generic branch: theta = arccos c carries the rounding dc ~ 1e-16 of c amplified by 1/sin, and the entries
    w_i/(4 s^2) (theta c / s - 1) amplify it again: absolute error k_i c dc / (2 s^3) (2e-4 at an angle of 6e-5 rad; measured).
